@@ -117,6 +117,9 @@ def run(ck: Check, prog: Program) -> None:
         # ---- CTX-EXCLUDED / CTX-WINS -------------------------------------------------------------
         _ctx_rules(ck, prog, b)
     _bind_strict(ck, prog)
+    from . import borrow
+    borrow(ck, prog, 'C14', {'VALID-ORDER', 'EXCL-AGREE'}, 'the arguments the method receives are the bound ones of this call: binding happens on every path, '
+           'against the signature filtered by name wherever the context parameter stands')
     # ---- CTX-SOURCE: the context / positional settings bind() reads are those of THIS registration (instance attributes written by
     #      the constructor from its own arguments), not state shared between registrations of the same function
     from .wire import ctor_field_of_param
